@@ -586,6 +586,18 @@ def names_catalog():
                                                    {"ty": "string", "name": "c", "arr": ["var", "K2"], "opt": False}, {"ty": "int", "name": "d", "arr": ["fixed", "0010"], "opt": False}]},
         {"k": "typedef", "ty": "opaque", "name": "t10", "arr": ["var", "010"]},
         {"k": "union", "name": "lab", "swty": "int", "swvar": "d", "arms": [{"labels": ["010"], "body": {"ty": "int", "name": "x", "arr": None}}, {"labels": ["00", "K2"], "body": "void"}]}]))
+    # declarations whose names differ only by an affix the generator itself uses somewhere (`_t`, `_v`, `v_`, `<T>`)
+    for sfx_i, (plain, affixed) in enumerate([("cookie", "cookie_t"), ("type", "type_t"), ("ref", "ref_v"), ("n1", "v_n1"), ("item", "itemT"), ("blob", "blob_")]):
+        out.append(("names:affix-pairs", [
+            {"k": "typedef", "ty": "opaque", "name": affixed, "arr": ["var", "8"]},
+            {"k": "struct", "name": plain, "fields": [{"ty": "int", "name": "a", "arr": None, "opt": False}]},
+            {"k": "struct", "name": "uses%d" % sfx_i, "fields": [{"ty": plain, "name": "p", "arr": None, "opt": False}, {"ty": affixed, "name": "q", "arr": None, "opt": False}]},
+            {"k": "struct", "name": "only_plain%d" % sfx_i, "fields": [{"ty": plain, "name": "p", "arr": ["var", ""], "opt": False}]}]))
+        out.append(("names:affix-pairs", [
+            {"k": "struct", "name": affixed, "fields": [{"ty": "int", "name": "a", "arr": None, "opt": False}]},
+            {"k": "struct", "name": plain, "fields": [{"ty": "opaque", "name": "o", "arr": ["var", ""], "opt": False}]},
+            {"k": "union", "name": "sel%d" % sfx_i, "swty": "int", "swvar": "d", "arms": [{"labels": ["1"], "body": {"ty": affixed, "name": "x", "arr": None}},
+                                                                                    {"labels": ["2"], "body": {"ty": plain, "name": "y", "arr": None}}]}]))
     out.append(("names:member-like-declaration", [
         {"k": "struct", "name": "data", "fields": [{"ty": "unsigned int", "name": "hint", "arr": None, "opt": False}, {"ty": "opaque", "name": "data", "arr": ["var", ""], "opt": False}]},
         {"k": "struct", "name": "datas", "fields": [{"ty": "data", "name": "datas", "arr": ["var", ""], "opt": False}]},
